@@ -254,7 +254,8 @@ def check(prog, rep):
     block_modelled = len(rep.rules) > n_rules and len(rep.deferred) == n_def
     r5 = rep.rule("R5", "ligand parameters are transferred to the ligand's atoms only, once", floor=2)
     nt = prog.func("main.py", "non_trivial").node
-    stores = [s for s in iter_stmts(nt.body) if isinstance(s, ast.Assign) and U(s.targets[0]) in ("pdb_atom.ffcharge", "pdb_atom.radius")]
+    stores = [s for s in iter_stmts(nt.body) if isinstance(s, ast.Assign) and isinstance(s.targets[0], ast.Attribute) and s.targets[0].attr in ("ffcharge", "radius")
+              and any("args.ligand" in U(tst) for tst, _p in guards_of(s))]
     if not stores:
         raise AnalysisError("non_trivial: ligand transfer stores not found")
     wn = f"pdb2pqr/main.py:{stores[0].lineno} (non_trivial)"
